@@ -368,6 +368,16 @@ class OpCase:
             out.pair("seed gradient %d unchanged by a second backward" % k, snapshot(gt.data), snap)
         for lab, a, snap in snaps:
             out.pair(lab + " unchanged by repetition", snapshot(a), snap)
+        # what an earlier call returned is the caller's: a later call (forward or backward) must neither overwrite it nor
+        # hand out the same storage again
+        for k, (oo, f) in enumerate(zip(outs, first)):
+            out.pair("result %d of the first call unchanged by the later calls" % k, snapshot(oo.data), f)
+            o2k = as_list(o2)[k]
+            # (results that are views of an operand - reshape, transpose, indexing, identity in eval mode - share the
+            # operand's storage by design; what must not happen is two calls handing out the same *private* buffer)
+            is_view = any(np.shares_memory(ar.unwrap(oo.data), ar.unwrap(t.data)) for t in ts)
+            out.fact("results %d of two calls do not share a buffer of the library's own" % k,
+                     oo.data.size == 0 or is_view or not np.shares_memory(ar.unwrap(oo.data), ar.unwrap(o2k.data)))
         return out
 
     # ------------------------------------------------------------------ dtype / shape facts (C10)
